@@ -476,6 +476,8 @@ class ExprMixin:
             return z3.Const('None@obj', Obj)
         if isinstance(v, VU):
             return z3.Function('inj:' + v.t.sort().name(), v.t.sort(), Obj)(v.t)
+        if isinstance(v, VSeq):
+            return z3.Function('inj:seq', v.t.sort(), Obj)(v.t)
         if isinstance(v, (VInt, VBool)):
             t = v.t if isinstance(v, VInt) else z3.If(v.t, 1, 0)
             return z3.Function('inj:int', z3.IntSort(), Obj)(t)
